@@ -404,7 +404,8 @@ pub fn gen_rw_history(rng: &mut Rng, prog: &Program) -> Vec<Op> {
                     .collect()
             })
             .collect();
-        ops.push(Op::ReadersWriter { sessions, readers });
+        let detach = if rng.chance(1, 3) { 1 + rng.below(u64::MAX - 1) } else { 0 };
+        ops.push(Op::ReadersWriter { sessions, readers, detach });
         if rng.chance(1, 2) {
             ops.push(Op::Query { root: rng.below(u64::from(n)) as u32, new_tracked: true });
         }
